@@ -13,13 +13,25 @@
 //!   C05 digits <N> <a> <w> <numbits>                                   => digits | panic   (`verif_hooks::make_digits`)
 //! `p a b` = curve y² = x³ + a x + b over F_p, `r`/`N` = modulus / BigInt limbs of the scalar field,
 //! `nc` = NEGATION_IS_CHEAP of the group type the entry point is called on.
+//!
+//! The same ops on two more kinds of groups (same argument order after the group parameters):
+//!   C05 te.<op> <p> <a> <d> <r> <N> <nc> …     twisted-Edwards curve a x² + y² = 1 + d x² y² over F_p, points `x:y`
+//!                                               (identity `0:1`), `te::Projective<P>` (checked msm = `TECurveConfig::msm`)
+//!   C05 gt.<op> <r> <N> <nc> …                  `PairingOutput<Bls12_381>`: every element is exchanged as its discrete
+//!        logarithm `e` (mod r, hex) w.r.t. `gt = e(g1, g2)`: the bases are `gt^e` for small |e| taken from a table built
+//!        by repeated group addition of `gt` (and of `-gt`), the result is looked up in the same table (`notfound` when it
+//!        is not one of `gt^e`, |e| <= GT_D).  The harness never computes Σ kᵢ·eᵢ; the inputs are chosen so that the sum
+//!        stays inside the table.
 #![allow(dead_code, deprecated)]
 use ark_ec::scalar_mul::variable_base::{verif_hooks, ChunkedPippenger, HashMapPippenger};
 use ark_ec::{
+    pairing::{Pairing, PairingOutput},
     short_weierstrass::{Affine, Projective, SWCurveConfig},
-    AffineRepr, CurveConfig, CurveGroup, PrimeGroup, VariableBaseMSM,
+    twisted_edwards as te,
+    AffineRepr, CurveConfig, CurveGroup, PrimeGroup, ScalarMul, VariableBaseMSM,
 };
-use ark_ff::{BigInt, BigInteger, MontFp, PrimeField, Zero};
+use ark_ff::{BigInt, BigInteger, Field, Fp, MontBackend, MontConfig, MontFp, PrimeField, Zero};
+use ark_serialize::CanonicalSerialize;
 use arkharness::util::*;
 use arkharness::zoo::*;
 
@@ -55,24 +67,159 @@ sw_curve!(T251R257, FDT251, FDT257, 1, "1", "1", "16", "0", "4");
 // y² = x³ + x + 16 over F_257: order 251 = r, scalar field stored in four limbs
 sw_curve!(T257R251X4, FDT257, FHT251x4, 1, "1", "1", "16", "0", "4");
 
+// Complete twisted-Edwards toy curves a x² + y² = 1 + d x² y² (a a square, d a non-square: the affine law has no
+// exceptional pairs, also outside the prime-order subgroup); orders / generators by brute force (Python), re-checked
+// at start-up by `check_te`.
+macro_rules! te_curve {
+    ($name:ident, $bf:ty, $sf:ty, $cof:expr, $cofinv:expr, $a:expr, $d:expr, $gx:expr, $gy:expr, $ma:expr, $mb:expr) => {
+        #[derive(Clone, Default, PartialEq, Eq)]
+        pub struct $name;
+        impl CurveConfig for $name {
+            type BaseField = $bf;
+            type ScalarField = $sf;
+            const COFACTOR: &'static [u64] = &[$cof];
+            const COFACTOR_INV: $sf = MontFp!($cofinv);
+        }
+        impl te::TECurveConfig for $name {
+            const COEFF_A: $bf = MontFp!($a);
+            const COEFF_D: $bf = MontFp!($d);
+            const GENERATOR: te::Affine<Self> = te::Affine::new_unchecked(MontFp!($gx), MontFp!($gy));
+            type MontCurveConfig = $name;
+        }
+        impl te::MontCurveConfig for $name {
+            const COEFF_A: $bf = MontFp!($ma);
+            const COEFF_B: $bf = MontFp!($mb);
+            type TECurveConfig = $name;
+        }
+    };
+}
+#[derive(MontConfig)]
+#[modulus = "59"]
+#[generator = "2"]
+pub struct S59;
+pub type F59 = Fp<MontBackend<S59, 1>, 1>;
+#[derive(MontConfig)]
+#[modulus = "16493"]
+#[generator = "2"]
+pub struct S16493;
+pub type F16493 = Fp<MontBackend<S16493, 1>, 1>;
+// x² + y² = 1 + 7 x² y² over F_13: order 20 = 4·5, r = 5 (3-bit scalars: a single window)
+te_curve!(TE13R5, FDT13, FDT5, 4, "4", "1", "7", "2", "9", "6", "8");
+// 3 x² + y² = 1 + 8 x² y² over F_251: order 260 = 20·13, r = 13, scalar field stored in one / two limbs
+te_curve!(TE251R13, FDT251, FDT13, 20, "2", "3", "8", "69", "87", "96", "200");
+te_curve!(TE251R13X2, FDT251, FHT13x2, 20, "2", "3", "8", "69", "87", "96", "200");
+// −x² + y² = 1 + 19 x² y² over F_257: order 236 = 4·59, r = 59 (6-bit scalars)
+te_curve!(TE257R59, FDT257, F59, 4, "15", "256", "19", "208", "74", "101", "154");
+// −x² + y² = 1 + 10 x² y² over F_65537: order 65972 = 4·16493, r = 16493 (15-bit scalars: five windows)
+te_curve!(TE65537R16493, FDT65537, F16493, 4, "12370", "65536", "10", "37855", "39212", "23830", "41705");
+
 // ---------------------------------------------------------------- the groups the entry points are called on
 type Fr<V> = <V as PrimeGroup>::ScalarField;
 type Big<V> = <Fr<V> as PrimeField>::BigInt;
-type Fq<V> = <<V as HG>::C as CurveConfig>::BaseField;
-type Aff<V> = Affine<<V as HG>::C>;
+type Aff<V> = <V as HG>::A;
 
+/// a group type the entry points are called on, with the exchange format of its elements
 trait HG: VariableBaseMSM + Sized {
-    type C: SWCurveConfig<ScalarField = Fr<Self>>;
-    const NC: &'static str;
-    fn base(a: &Aff<Self>) -> Self::MulBase;
-    fn aff(&self) -> Aff<Self>;
+    /// printable form of a group element used for the bases (affine point / tagged pairing output)
+    type A: Copy + Eq;
+    const PFX: &'static str;
+    fn nc() -> &'static str;
+    /// the group parameters in front of `r N nc`
+    fn params() -> Vec<String>;
+    fn base(a: &Self::A) -> Self::MulBase;
+    fn pt(a: &Self::A) -> String;
+    fn res(&self) -> String;
 }
-impl<P: SWCurveConfig> HG for Projective<P> {
-    type C = P;
-    const NC: &'static str = "1";
+/// curve groups: what the generic suites need
+trait HC: HG {
+    fn a_id() -> Self::A;
+    fn a_neg(a: &Self::A) -> Self::A;
+    fn a_gen() -> Self::A;
+    fn a_dbl(a: &Self::A) -> Self::A;
+    /// all affine points of a toy curve, the identity first
+    fn all_points() -> Vec<Self::A>;
+    /// a pool of points of a shipped curve: multiples of the generator (incl. G, 2G, −G) and the identity
+    fn real_pool(rng: &mut Rng, n: usize) -> Vec<Self::A>;
+}
+fn sw_params<P: SWCurveConfig>() -> Vec<String> where P::BaseField: PrimeField {
+    vec![hex_limbs(<P::BaseField as PrimeField>::MODULUS.as_ref()), fe(&P::COEFF_A), fe(&P::COEFF_B)]
+}
+fn sw_pt<P: SWCurveConfig>(a: &Affine<P>) -> String where P::BaseField: PrimeField {
+    if a.infinity { "inf".into() } else { format!("{}:{}", fe(&a.x), fe(&a.y)) }
+}
+fn sw_all_points<P: SWCurveConfig>() -> Vec<Affine<P>> where P::BaseField: PrimeField {
+    let q = <P::BaseField as PrimeField>::MODULUS.as_ref()[0];
+    let mut v = vec![Affine::<P>::identity()];
+    for x in 0..q { for y in 0..q {
+        let (x, y) = (fu::<P::BaseField>(x), fu::<P::BaseField>(y));
+        if y * y == x * x * x + P::COEFF_A * x + P::COEFF_B { v.push(Affine::<P>::new_unchecked(x, y)); }
+    } }
+    v
+}
+fn te_all_points<P: te::TECurveConfig>() -> Vec<te::Affine<P>> where P::BaseField: PrimeField {
+    let q = <P::BaseField as PrimeField>::MODULUS.as_ref()[0];
+    let one = <P::BaseField as Field>::ONE;
+    let mut v = vec![te::Affine::<P>::zero()];
+    for x in 0..q {
+        let x = fu::<P::BaseField>(x);
+        let x2 = x * x;
+        let den = one - P::COEFF_D * x2;
+        if den.is_zero() { continue; }
+        let y2 = (one - P::COEFF_A * x2) / den;
+        if let Some(y) = y2.sqrt() {
+            for y in if y.is_zero() { vec![y] } else { vec![y, -y] } {
+                let a = te::Affine::<P>::new_unchecked(x, y);
+                assert!(a.is_on_curve());
+                if !a.is_zero() { v.push(a); }
+            }
+        }
+    }
+    v
+}
+fn real_pool_a<A: AffineRepr>(rng: &mut Rng, n: usize) -> Vec<A> {
+    let g = A::Group::generator();
+    let mut v = vec![g, g + g, -g];
+    let mut cur = g * rand_fr::<A::ScalarField>(rng);
+    let step = g * rand_fr::<A::ScalarField>(rng);
+    while v.len() < n { v.push(cur); cur += step; }
+    let mut a = A::Group::normalize_batch(&v);
+    a.push(A::zero());
+    a
+}
+macro_rules! hc_impl {
+    ($cfg:ident, $tr:path, $ty:ty, $all:ident) => {
+        impl<$cfg: $tr> HC for $ty where $cfg::BaseField: PrimeField {
+            fn a_id() -> Self::A { <Self::A as AffineRepr>::zero() }
+            fn a_neg(a: &Self::A) -> Self::A { -*a }
+            fn a_gen() -> Self::A { $cfg::GENERATOR }
+            fn a_dbl(a: &Self::A) -> Self::A { (a.into_group() + a).into_affine() }
+            fn all_points() -> Vec<Self::A> { $all::<$cfg>() }
+            fn real_pool(rng: &mut Rng, n: usize) -> Vec<Self::A> { real_pool_a::<Self::A>(rng, n) }
+        }
+    };
+}
+impl<P: SWCurveConfig> HG for Projective<P> where P::BaseField: PrimeField {
+    type A = Affine<P>;
+    const PFX: &'static str = "";
+    fn nc() -> &'static str { "1" }
+    fn params() -> Vec<String> { sw_params::<P>() }
     fn base(a: &Affine<P>) -> Affine<P> { *a }
-    fn aff(&self) -> Affine<P> { self.into_affine() }
+    fn pt(a: &Affine<P>) -> String { sw_pt(a) }
+    fn res(&self) -> String { sw_pt(&self.into_affine()) }
 }
+hc_impl!(P, SWCurveConfig, Projective<P>, sw_all_points);
+impl<P: te::TECurveConfig> HG for te::Projective<P> where P::BaseField: PrimeField {
+    type A = te::Affine<P>;
+    const PFX: &'static str = "te.";
+    fn nc() -> &'static str { "1" }
+    fn params() -> Vec<String> {
+        vec![hex_limbs(<P::BaseField as PrimeField>::MODULUS.as_ref()), fe(&P::COEFF_A), fe(&P::COEFF_D)]
+    }
+    fn base(a: &te::Affine<P>) -> te::Affine<P> { *a }
+    fn pt(a: &te::Affine<P>) -> String { format!("{}:{}", fe(&a.x), fe(&a.y)) }
+    fn res(&self) -> String { Self::pt(&self.into_affine()) }
+}
+hc_impl!(P, te::TECurveConfig, te::Projective<P>, te_all_points);
 
 /// A group type whose `NEGATION_IS_CHEAP` is `false` (no shipped group has one): the short-Weierstrass projective
 /// group behind a newtype with `MulBase = Self` (as `PairingOutput` does) and every `VariableBaseMSM` method left at
@@ -147,21 +294,22 @@ mod slow_impls {
     }
     impl<P: SWCurveConfig> VariableBaseMSM for SlowG<P> {}
 }
-impl<P: SWCurveConfig> HG for SlowG<P> {
-    type C = P;
-    const NC: &'static str = "0";
+impl<P: SWCurveConfig> HG for SlowG<P> where P::BaseField: PrimeField {
+    type A = Affine<P>;
+    const PFX: &'static str = "";
+    fn nc() -> &'static str { "0" }
+    fn params() -> Vec<String> { sw_params::<P>() }
     fn base(a: &Affine<P>) -> Self { SlowG(a.into_group()) }
-    fn aff(&self) -> Affine<P> { self.0.into_affine() }
+    fn pt(a: &Affine<P>) -> String { sw_pt(a) }
+    fn res(&self) -> String { sw_pt(&self.0.into_affine()) }
 }
+hc_impl!(P, SWCurveConfig, SlowG<P>, sw_all_points);
 
 // ---------------------------------------------------------------- printing
 fn fe<F: PrimeField>(x: &F) -> String { hex_limbs(x.into_bigint().as_ref()) }
-fn pt<P: SWCurveConfig>(a: &Affine<P>) -> String where P::BaseField: PrimeField {
-    if a.infinity { "inf".into() } else { format!("{}:{}", fe(&a.x), fe(&a.y)) }
-}
-fn pts<P: SWCurveConfig>(v: &[Affine<P>]) -> String where P::BaseField: PrimeField {
+fn pts<V: HG>(v: &[Aff<V>]) -> String {
     if v.is_empty() { return "_".into(); }
-    v.iter().map(pt).collect::<Vec<_>>().join(",")
+    v.iter().map(V::pt).collect::<Vec<_>>().join(",")
 }
 fn frs<F: PrimeField>(v: &[F]) -> String {
     if v.is_empty() { return "_".into(); }
@@ -175,69 +323,71 @@ fn idxs(v: &[usize]) -> String {
     if v.is_empty() { return "_".into(); }
     v.iter().map(|i| format!("{:x}", i)).collect::<Vec<_>>().join(",")
 }
-fn hdr<V: HG>() -> String where Fq<V>: PrimeField {
-    format!("{} {} {} {} {:x} {}",
-        hex_limbs(<Fq<V> as PrimeField>::MODULUS.as_ref()), fe(&<V::C as SWCurveConfig>::COEFF_A), fe(&<V::C as SWCurveConfig>::COEFF_B),
-        hex_limbs(<Fr<V> as PrimeField>::MODULUS.as_ref()), <Big<V> as BigInteger>::NUM_LIMBS, V::NC)
+fn hdr<V: HG>() -> String {
+    let mut h = V::params();
+    h.push(hex_limbs(<Fr<V> as PrimeField>::MODULUS.as_ref()));
+    h.push(format!("{:x}", <Big<V> as BigInteger>::NUM_LIMBS));
+    h.push(V::nc().into());
+    h.join(" ")
 }
-fn res<V: HG>(v: &V) -> String where Fq<V>: PrimeField { pt(&v.aff()) }
+fn res<V: HG>(v: &V) -> String { v.res() }
 fn mb<V: HG>(b: &[Aff<V>]) -> Vec<V::MulBase> { b.iter().map(V::base).collect() }
 
 // ---------------------------------------------------------------- ops
 /// field-element entry points; `which`: bit 0 msm, bit 1 unchecked, bit 2 chunks
-fn e_field<V: HG>(out: &mut Out, bases: &[Aff<V>], scalars: &[Fr<V>], which: u32) where Fq<V>: PrimeField {
-    let args = format!("{} {} {}", hdr::<V>(), pts(bases), frs(scalars));
+fn e_field<V: HG>(out: &mut Out, bases: &[Aff<V>], scalars: &[Fr<V>], which: u32) {
+    let args = format!("{} {} {}", hdr::<V>(), pts::<V>(bases), frs(scalars));
     let b = mb::<V>(bases);
     if which & 1 != 0 {
-        out.line(&format!("C05 msm {}", args), &guarded(|| match V::msm(&b, scalars) { Ok(g) => res(&g), Err(n) => format!("err:{:x}", n) }));
+        out.line(&format!("C05 {}msm {}", V::PFX, args), &guarded(|| match V::msm(&b, scalars) { Ok(g) => res(&g), Err(n) => format!("err:{:x}", n) }));
     }
     if which & 2 != 0 {
-        out.line(&format!("C05 unchecked {}", args), &guarded(|| res(&V::msm_unchecked(&b, scalars))));
+        out.line(&format!("C05 {}unchecked {}", V::PFX, args), &guarded(|| res(&V::msm_unchecked(&b, scalars))));
     }
     if which & 4 != 0 {
-        out.line(&format!("C05 chunks {}", args), &guarded(|| res(&V::msm_chunks(&&b[..], &&scalars[..]))));
+        out.line(&format!("C05 {}chunks {}", V::PFX, args), &guarded(|| res(&V::msm_chunks(&&b[..], &&scalars[..]))));
     }
 }
 /// big-integer entry points; `which`: bit 0 msm_bigint, bit 1 hook wnaf, bit 2 hook plain
-fn e_big<V: HG>(out: &mut Out, bases: &[Aff<V>], bigints: &[Big<V>], which: u32) where Fq<V>: PrimeField {
-    let args = format!("{} {} {}", hdr::<V>(), pts(bases), bigs(bigints));
+fn e_big<V: HG>(out: &mut Out, bases: &[Aff<V>], bigints: &[Big<V>], which: u32) {
+    let args = format!("{} {} {}", hdr::<V>(), pts::<V>(bases), bigs(bigints));
     let b = mb::<V>(bases);
     if which & 1 != 0 {
-        out.line(&format!("C05 bigint {}", args), &guarded(|| res(&V::msm_bigint(&b, bigints))));
+        out.line(&format!("C05 {}bigint {}", V::PFX, args), &guarded(|| res(&V::msm_bigint(&b, bigints))));
     }
     if which & 2 != 0 {
-        out.line(&format!("C05 wnaf {}", args), &guarded(|| res(&verif_hooks::msm_bigint_wnaf::<V>(&b, bigints))));
+        out.line(&format!("C05 {}wnaf {}", V::PFX, args), &guarded(|| res(&verif_hooks::msm_bigint_wnaf::<V>(&b, bigints))));
     }
     if which & 4 != 0 {
-        out.line(&format!("C05 plain {}", args), &guarded(|| res(&verif_hooks::msm_bigint_plain::<V>(&b, bigints))));
+        out.line(&format!("C05 {}plain {}", V::PFX, args), &guarded(|| res(&verif_hooks::msm_bigint_plain::<V>(&b, bigints))));
     }
 }
-fn e_chunkscyc<V: HG>(out: &mut Out, nb: usize, ns: usize, bpat: &[Aff<V>], spat: &[Fr<V>]) where Fq<V>: PrimeField {
+fn e_chunkscyc<V: HG>(out: &mut Out, nb: usize, ns: usize, bpat: &[Aff<V>], spat: &[Fr<V>]) {
     let bases: Vec<V::MulBase> = (0..nb).map(|i| V::base(&bpat[i % bpat.len()])).collect();
     let scalars: Vec<Fr<V>> = (0..ns).map(|i| spat[i % spat.len()]).collect();
-    out.line(&format!("C05 chunkscyc {} {:x} {:x} {} {}", hdr::<V>(), nb, ns, pts(bpat), frs(spat)),
+    out.line(&format!("C05 {}chunkscyc {} {:x} {:x} {} {}", V::PFX, hdr::<V>(), nb, ns, pts::<V>(bpat), frs(spat)),
         &guarded(|| res(&V::msm_chunks(&&bases[..], &&scalars[..]))));
 }
 /// accumulators; `which`: bit 0 ChunkedPippenger::new, bit 1 ::with_size, bit 2 HashMapPippenger
-fn e_acc<V: HG>(out: &mut Out, buf: usize, bases: &[Aff<V>], scalars: &[Fr<V>], ops: &[usize], which: u32) where Fq<V>: PrimeField {
-    let args = format!("{} {:x} {} {} {}", hdr::<V>(), buf, pts(bases), frs(scalars), idxs(ops));
+fn e_acc<V: HG>(out: &mut Out, buf: usize, bases: &[Aff<V>], scalars: &[Fr<V>], ops: &[usize], which: u32) {
+    let args = format!("{} {:x} {} {} {}", hdr::<V>(), buf, pts::<V>(bases), frs(scalars), idxs(ops));
     let b = mb::<V>(bases);
     if which & 1 != 0 {
-        out.line(&format!("C05 chunked {}", args), &guarded(|| {
+        out.line(&format!("C05 {}chunked {}", V::PFX, args), &guarded(|| {
             let mut acc = ChunkedPippenger::<V>::new(buf);
             for &i in ops { acc.add(b[i], scalars[i].into_bigint()); }
             res(&acc.finalize())
         }));
     }
     if which & 2 != 0 {
-        out.line(&format!("C05 chunkedws {}", args), &guarded(|| {
+        out.line(&format!("C05 {}chunkedws {}", V::PFX, args), &guarded(|| {
             let mut acc = ChunkedPippenger::<V>::with_size(buf);
             for &i in ops { acc.add(&b[i], &scalars[i].into_bigint()); }
             res(&acc.finalize())
         }));
     }
     if which & 4 != 0 {
-        out.line(&format!("C05 hashmap {}", args), &guarded(|| {
+        out.line(&format!("C05 {}hashmap {}", V::PFX, args), &guarded(|| {
             let mut acc = HashMapPippenger::<V>::new(buf);
             for &i in ops { acc.add(b[i], scalars[i]); }
             res(&acc.finalize())
@@ -311,19 +461,19 @@ fn big_pattern<F: PrimeField>(rng: &mut Rng, kind: u32, len: usize) -> Vec<F::Bi
 /// base patterns over a pool of affine points: 0 random, 1 all the same, 2 all identity, 3 mixture with identity,
 /// repeats and opposite pairs
 const N_BP: u32 = 4;
-fn base_pattern<P: SWCurveConfig>(rng: &mut Rng, pool: &[Affine<P>], kind: u32, len: usize) -> Vec<Affine<P>> {
+fn base_pattern<V: HC>(rng: &mut Rng, pool: &[Aff<V>], kind: u32, len: usize) -> Vec<Aff<V>> {
     let pick = |rng: &mut Rng| pool[rng.below(pool.len() as u64) as usize];
     let same = pick(rng);
-    let mut v: Vec<Affine<P>> = Vec::with_capacity(len);
+    let mut v: Vec<Aff<V>> = Vec::with_capacity(len);
     for i in 0..len {
         let p = match kind {
             0 => pick(rng),
             1 => same,
-            2 => Affine::<P>::identity(),
+            2 => V::a_id(),
             _ => match rng.below(6) {
-                0 => Affine::<P>::identity(),
+                0 => V::a_id(),
                 1 if i > 0 => v[rng.below(i as u64) as usize],
-                2 if i > 0 => -v[rng.below(i as u64) as usize],
+                2 if i > 0 => V::a_neg(&v[rng.below(i as u64) as usize]),
                 3 => same,
                 _ => pick(rng),
             },
@@ -332,28 +482,6 @@ fn base_pattern<P: SWCurveConfig>(rng: &mut Rng, pool: &[Affine<P>], kind: u32, 
     }
     v
 }
-/// all affine points of a toy curve (incl. the identity first)
-fn all_points<P: SWCurveConfig>() -> Vec<Affine<P>> where P::BaseField: PrimeField {
-    let q = <P::BaseField as PrimeField>::MODULUS.as_ref()[0];
-    let mut v = vec![Affine::<P>::identity()];
-    for x in 0..q { for y in 0..q {
-        let (x, y) = (fu::<P::BaseField>(x), fu::<P::BaseField>(y));
-        if y * y == x * x * x + P::COEFF_A * x + P::COEFF_B { v.push(Affine::<P>::new_unchecked(x, y)); }
-    } }
-    v
-}
-/// a pool of points of a shipped curve: multiples of the generator (incl. G, 2G, −G) and the identity
-fn real_pool<P: SWCurveConfig>(rng: &mut Rng, n: usize) -> Vec<Affine<P>> {
-    let g = Projective::<P>::generator();
-    let mut v = vec![g, g + g, -g];
-    let mut cur = g * rand_fr::<P::ScalarField>(rng);
-    let step = g * rand_fr::<P::ScalarField>(rng);
-    while v.len() < n { v.push(cur); cur += step; }
-    let mut a = Projective::<P>::normalize_batch(&v);
-    a.push(Affine::<P>::identity());
-    a
-}
-
 const LENS_Q: &[usize] = &[0, 1, 2, 3, 4, 7, 8, 9, 31, 32, 33, 63, 64, 65, 100];
 const LENS_T: &[usize] = &[5, 6, 15, 16, 17, 30, 34, 127, 128, 129, 255, 256, 257, 1023, 1024, 1025];
 const MISMATCH: &[(usize, usize)] = &[(0, 1), (1, 0), (0, 5), (5, 0), (1, 2), (2, 1), (2, 3), (3, 2), (7, 9), (31, 32), (32, 31),
@@ -362,7 +490,7 @@ const MISMATCH: &[(usize, usize)] = &[(0, 1), (1, 0), (0, 5), (5, 0), (1, 2), (2
 /// the shape suite on one group: every length × base pattern × scalar pattern, mismatched lengths, big integers.
 /// `level` 0 = toy curve (everything), 1 = shipped curve thorough, 2 = shipped curve quick (the driver follows
 /// shipped curves at ≈ 30 µs per affine addition, so the quick tier keeps only a few long vectors there)
-fn shapes<V: HG>(out: &mut Out, rng: &mut Rng, pool: &[Aff<V>], lens: &[usize], reps: usize, level: u8) where Fq<V>: PrimeField {
+fn shapes<V: HC>(out: &mut Out, rng: &mut Rng, pool: &[Aff<V>], lens: &[usize], reps: usize, level: u8) {
     let toy = level == 0;
     for &len in lens {
         for bk in 0..N_BP { for sk in 0..N_SK { for rep in 0..reps {
@@ -371,7 +499,7 @@ fn shapes<V: HG>(out: &mut Out, rng: &mut Rng, pool: &[Aff<V>], lens: &[usize], 
             if level == 1 && len > 4 && !(bk == 0 && sk == 3 || bk == 3 && sk == 4 || bk == 1 && sk == 2 || bk == 2 && sk == 3 || bk == 0 && sk == 0 || bk == 0 && sk == 1) { continue; }
             if level == 2 && len > 4 && !(bk == 3 && sk == 4 || (len <= 33 && bk == 0 && sk == 1)) { continue; }
             if level == 2 && len <= 4 && !(cheap || bk == 0 && sk == 3 || bk == 3 && sk == 4 || bk == 1 && sk == 2) { continue; }
-            let bases = base_pattern(rng, pool, bk, len);
+            let bases = base_pattern::<V>(rng, pool, bk, len);
             let scalars = scalar_pattern::<Fr<V>>(rng, sk, len);
             // field entry points: all three on toy curves, rotating on shipped curves
             let wf = if toy || len <= 2 && (level == 1 || cheap) { 7 } else { 1 << ((bk + sk + rep as u32 + len as u32) % 3) };
@@ -384,14 +512,14 @@ fn shapes<V: HG>(out: &mut Out, rng: &mut Rng, pool: &[Aff<V>], lens: &[usize], 
         // big integers outside the field
         for bkind in 0..N_BK {
             if level == 1 && len > 33 || level == 2 && !(len == 1 || len == 2) { continue; }
-            let bases = base_pattern(rng, pool, if bkind == 2 { 1 } else { 0 }, len);
+            let bases = base_pattern::<V>(rng, pool, if bkind == 2 { 1 } else { 0 }, len);
             let bigs = big_pattern::<Fr<V>>(rng, bkind, len);
             e_big::<V>(out, &bases, &bigs, if level == 2 { 1 | (2 << (bkind % 2)) } else { 7 });
         }
     }
     for &(bl, sl) in MISMATCH {
         if level == 1 && bl.max(sl) > 40 || level == 2 && bl.max(sl) > 3 { continue; }
-        let bases = base_pattern(rng, pool, 3, bl);
+        let bases = base_pattern::<V>(rng, pool, 3, bl);
         let scalars = scalar_pattern::<Fr<V>>(rng, 4, sl);
         e_field::<V>(out, &bases, &scalars, 7);
         let bigs = big_pattern::<Fr<V>>(rng, 3, sl);
@@ -412,7 +540,7 @@ fn sequences(k: usize, maxlen: usize) -> Vec<Vec<usize>> {
     all
 }
 /// every add history over the alphabet (bases[i], scalars[i]) up to `maxlen` adds × buffer sizes 1..=9
-fn histories<V: HG>(out: &mut Out, bases: &[Aff<V>], scalars: &[Fr<V>], maxlen: usize, ws_len: usize) where Fq<V>: PrimeField {
+fn histories<V: HG>(out: &mut Out, bases: &[Aff<V>], scalars: &[Fr<V>], maxlen: usize, ws_len: usize) {
     for ops in sequences(bases.len(), maxlen) {
         for buf in 1..=9usize {
             e_acc::<V>(out, buf, bases, scalars, &ops, if ops.len() <= ws_len { 7 } else { 5 });
@@ -420,10 +548,10 @@ fn histories<V: HG>(out: &mut Out, bases: &[Aff<V>], scalars: &[Fr<V>], maxlen: 
         if ops.len() <= 3 { e_acc::<V>(out, 0, bases, scalars, &ops, 7); }
     }
 }
-fn random_histories<V: HG>(out: &mut Out, rng: &mut Rng, pool: &[Aff<V>], count: usize, maxlen: usize) where Fq<V>: PrimeField {
+fn random_histories<V: HC>(out: &mut Out, rng: &mut Rng, pool: &[Aff<V>], count: usize, maxlen: usize) {
     for _ in 0..count {
         let k = 1 + rng.below(5) as usize;
-        let bases = base_pattern(rng, pool, 3, k);
+        let bases = base_pattern::<V>(rng, pool, 3, k);
         let scalars = scalar_pattern::<Fr<V>>(rng, 4, k);
         let len = rng.below(maxlen as u64 + 1) as usize;
         let ops: Vec<usize> = (0..len).map(|_| rng.below(k as u64) as usize).collect();
@@ -433,8 +561,9 @@ fn random_histories<V: HG>(out: &mut Out, rng: &mut Rng, pool: &[Aff<V>], count:
 }
 
 /// exhaustive small cases on a toy curve: every (point, scalar) vector of length 1, and of length 2 (3) up to a cap
-fn exhaustive<V: HG>(out: &mut Out, rng: &mut Rng, maxlen: usize, cap: usize) where Fq<V>: PrimeField {
-    let pool = all_points::<V::C>();
+fn exhaustive<V: HC>(out: &mut Out, rng: &mut Rng, maxlen: usize, cap: usize) {
+    if maxlen == 0 { return; }
+    let pool = V::all_points();
     let r = <Fr<V> as PrimeField>::MODULUS.as_ref()[0];
     let pairs: Vec<(Aff<V>, Fr<V>)> = pool.iter().flat_map(|p| (0..r).map(move |k| (*p, fu::<Fr<V>>(k)))).collect();
     let n = pairs.len();
@@ -453,36 +582,36 @@ fn exhaustive<V: HG>(out: &mut Out, rng: &mut Rng, maxlen: usize, cap: usize) wh
     }
 }
 
-fn toy<V: HG>(out: &mut Out, rng: &mut Rng, a: &arkharness::Args, name: &str, order: usize, ex_len: usize, ex_cap: usize, hist_len: usize) where Fq<V>: PrimeField {
+fn toy<V: HC>(out: &mut Out, rng: &mut Rng, a: &arkharness::Args, name: &str, order: usize, ex_len: usize, ex_cap: usize, hist_len: usize) {
     if let Some(o) = &a.only { if o != name { return; } }
-    let pool = all_points::<V::C>();
+    let pool = V::all_points();
     assert_eq!(pool.len(), order, "{}: group order", name);
-    assert!(pool.contains(&<V::C as SWCurveConfig>::GENERATOR), "{}: generator", name);
+    assert!(pool.contains(&V::a_gen()), "{}: generator", name);
     exhaustive::<V>(out, rng, ex_len, ex_cap);
     shapes::<V>(out, rng, &pool, LENS_Q, if a.thorough { 3 } else { 1 }, 0);
     if a.thorough { shapes::<V>(out, rng, &pool, LENS_T, 1, 0); }
     if hist_len > 0 {
-        let g = <V::C as SWCurveConfig>::GENERATOR;
-        let q = (g.into_group() + g).into_affine();
+        let g = V::a_gen();
+        let q = V::a_dbl(&g);
         let one = fu::<Fr<V>>(1);
         // A1: the same base twice with scalars summing to r (a zero entry in the hash map), and a second base
         histories::<V>(out, &[g, g, q], &[one, -one, fu::<Fr<V>>(5)], hist_len, 4);
         // A2: identity base, zero scalar, opposite base
-        histories::<V>(out, &[Aff::<V>::identity(), g, -g], &[fu::<Fr<V>>(3), Fr::<V>::zero(), fu::<Fr<V>>(2)], hist_len - 1, 0);
+        histories::<V>(out, &[V::a_id(), g, V::a_neg(&g)], &[fu::<Fr<V>>(3), Fr::<V>::zero(), fu::<Fr<V>>(2)], hist_len - 1, 0);
         // A3: random alphabet of four pairs
-        let b = base_pattern(rng, &pool, 3, 4);
+        let b = base_pattern::<V>(rng, &pool, 3, 4);
         let s = scalar_pattern::<Fr<V>>(rng, 4, 4);
         histories::<V>(out, &b, &s, hist_len - 2, 0);
         random_histories::<V>(out, rng, &pool, if a.thorough { 3000 } else { 300 }, 40);
     }
 }
-fn real<V: HG>(out: &mut Out, rng: &mut Rng, a: &arkharness::Args, name: &str) where Fq<V>: PrimeField {
+fn real<V: HC>(out: &mut Out, rng: &mut Rng, a: &arkharness::Args, name: &str) {
     if let Some(o) = &a.only { if o != name { return; } }
-    let pool = real_pool::<V::C>(rng, 24);
+    let pool = V::real_pool(rng, 24);
     if a.thorough { shapes::<V>(out, rng, &pool, LENS_Q, 1, 1); } else { shapes::<V>(out, rng, &pool, &[0, 1, 2, 3, 4, 31, 32, 33], 1, 2); }
     if a.thorough {
         for &len in &[128usize, 1024] {
-            let big_pool = real_pool::<V::C>(rng, len);
+            let big_pool = V::real_pool(rng, len);
             let scalars = scalar_pattern::<Fr<V>>(rng, 4, len);
             e_field::<V>(out, &big_pool[..len], &scalars, 1);
             let bigs: Vec<Big<V>> = scalars.iter().map(|s| s.into_bigint()).collect();
@@ -493,12 +622,12 @@ fn real<V: HG>(out: &mut Out, rng: &mut Rng, a: &arkharness::Args, name: &str) w
 }
 
 /// a few public-entry-point calls on a shipped curve through the NEGATION_IS_CHEAP = false wrapper
-fn real_slow<V: HG>(out: &mut Out, rng: &mut Rng, a: &arkharness::Args, name: &str) where Fq<V>: PrimeField {
+fn real_slow<V: HC>(out: &mut Out, rng: &mut Rng, a: &arkharness::Args, name: &str) {
     if let Some(o) = &a.only { if o != name { return; } }
-    let pool = real_pool::<V::C>(rng, 40);
+    let pool = V::real_pool(rng, 40);
     let lens: &[usize] = if a.thorough { &[0, 1, 2, 3, 31, 32, 33, 100] } else { &[0, 1, 2, 32] };
     for &len in lens {
-        let bases = base_pattern(rng, &pool, 3, len);
+        let bases = base_pattern::<V>(rng, &pool, 3, len);
         let scalars = scalar_pattern::<Fr<V>>(rng, 4, len);
         e_field::<V>(out, &bases, &scalars, if len <= 2 { 7 } else { 1 << (len % 3) });
         if len <= 2 || a.thorough {
@@ -506,10 +635,243 @@ fn real_slow<V: HG>(out: &mut Out, rng: &mut Rng, a: &arkharness::Args, name: &s
             e_big::<V>(out, &bases, &bigs, 1);
         }
     }
-    let bases = base_pattern(rng, &pool, 3, 2);
+    let bases = base_pattern::<V>(rng, &pool, 3, 2);
     e_field::<V>(out, &bases, &scalar_pattern::<Fr<V>>(rng, 4, 3), 7);
     e_field::<V>(out, &bases[..1], &scalar_pattern::<Fr<V>>(rng, 4, 0), 7);
     random_histories::<V>(out, rng, &pool, if a.thorough { 30 } else { 3 }, if a.thorough { 10 } else { 4 });
+}
+
+
+// ---------------------------------------------------------------- every length pair
+/// exactly one non-zero scalar (an edge value or random) among `len`
+fn one_nonzero<F: PrimeField>(rng: &mut Rng, len: usize) -> Vec<F> {
+    let mut v = vec![F::zero(); len];
+    if len > 0 {
+        let mut k = scalar_pattern::<F>(rng, 4, 1)[0];
+        if k.is_zero() { k = -F::one(); }
+        v[rng.below(len as u64) as usize] = k;
+    }
+    v
+}
+/// EVERY length pair (bases.len(), scalars.len()) in 0..=6 × 0..=6 and {31,32,33}² (the window-size switch), both
+/// `bases.len() > scalars.len()` and `<`, on the checked and the unchecked entry point (plus `msm_chunks` and
+/// `msm_bigint` on the mixture).  `level` 0: toy group with every scalar kind (mixture / zeros / ones / r−1 / exactly
+/// one non-zero); 1: toy group, mixture only; 2: shipped curve (small scalars and one non-zero small scalar are cheap
+/// for the driver; full-size scalars only on a few pairs).
+fn length_pairs<V: HC>(out: &mut Out, rng: &mut Rng, pool: &[Aff<V>], level: u8) {
+    let mut pairs: Vec<(usize, usize)> = Vec::new();
+    for nb in 0..=6 { for ns in 0..=6 { pairs.push((nb, ns)); } }
+    for &nb in &[31usize, 32, 33] { for &ns in &[31usize, 32, 33] { pairs.push((nb, ns)); } }
+    for (nb, ns) in pairs {
+        let n = nb.min(ns);
+        // kinds: 4 mixture, 0 zeros, 1 ones, 2 r−1, 5 small, 6 exactly one non-zero, 7 one non-zero small
+        let kinds: &[u32] = match level {
+            0 => &[4, 0, 1, 2, 6],
+            1 => &[4],
+            _ => if nb.abs_diff(ns) <= 1 && (n <= 2 || n == 5) { &[5, 7, 4] } else if n <= 6 { &[5, 7] } else { &[5] },
+        };
+        for &sk in kinds {
+            let bases = base_pattern::<V>(rng, pool, 3, nb);
+            let scalars: Vec<Fr<V>> = match sk {
+                6 => one_nonzero(rng, ns),
+                7 => { let mut v = vec![Fr::<V>::zero(); ns]; if ns > 0 { v[rng.below(ns as u64) as usize] = fu(1 + rng.below(7)); } v }
+                _ => scalar_pattern(rng, sk, ns),
+            };
+            let full = sk == 4 && level < 2;
+            e_field::<V>(out, &bases, &scalars, if full { 7 } else { 3 });
+            if full || level == 2 && sk == 5 && n <= 3 {
+                let bigs: Vec<Big<V>> = scalars.iter().map(|s| s.into_bigint()).collect();
+                e_big::<V>(out, &bases, &bigs, 1);
+            }
+        }
+    }
+}
+
+// ---------------------------------------------------------------- twisted-Edwards groups
+/// start-up check of a toy twisted-Edwards curve: complete (a square, d non-square), generator of order r, r·h = order
+fn check_te<P: te::TECurveConfig>(name: &str, order: usize) where P::BaseField: PrimeField {
+    let is_sq = |v: P::BaseField| v.is_zero() || v.legendre().is_qr();
+    assert!(is_sq(P::COEFF_A) && !is_sq(P::COEFF_D), "{}: a square, d non-square", name);
+    let r = <P::ScalarField as PrimeField>::MODULUS.as_ref()[0];
+    assert_eq!(r as usize * P::COFACTOR[0] as usize, order, "{}: r*h", name);
+    let g = P::GENERATOR;
+    assert!(g.is_on_curve() && !g.is_zero(), "{}: generator", name);
+    assert!(g.mul_bigint([r]).is_zero(), "{}: r*G = O", name);
+}
+/// a toy twisted-Edwards group: the suites of `toy` with their sizes as parameters, and every length pair.
+/// The pool is the whole curve: bases outside the prime-order subgroup (points of order 2 and 4 included) take part.
+fn toy_te<P: te::TECurveConfig>(out: &mut Out, rng: &mut Rng, a: &arkharness::Args, name: &str, order: usize,
+        ex_len: usize, ex_cap: usize, lens: &[usize], hist_len: usize, n_hist: usize, pair_level: u8) where P::BaseField: PrimeField {
+    type V<P> = te::Projective<P>;
+    if let Some(o) = &a.only { if o != name && o != "te" { return; } }
+    check_te::<P>(name, order);
+    let pool = V::<P>::all_points();
+    assert_eq!(pool.len(), order, "{}: group order", name);
+    assert!(pool.contains(&P::GENERATOR), "{}: generator", name);
+    let x = if a.thorough { 4 } else { 1 };
+    exhaustive::<V<P>>(out, rng, ex_len, ex_cap * x);
+    shapes::<V<P>>(out, rng, &pool, if a.thorough { LENS_Q } else { lens }, x, 0);
+    length_pairs::<V<P>>(out, rng, &pool, pair_level);
+    // the points of small order (cofactor subgroup) as bases
+    let r = <P::ScalarField as PrimeField>::MODULUS.as_ref()[0];
+    let small: Vec<te::Affine<P>> = pool.iter().filter(|p| p.mul_bigint(P::COFACTOR).is_zero()).cloned().collect();
+    assert_eq!(small.len() as u64, P::COFACTOR[0]);
+    for len in [1usize, 2, 3, 5, 32] {
+        let bases = base_pattern::<V<P>>(rng, &small, 0, len);
+        let scalars = scalar_pattern::<P::ScalarField>(rng, 4, len);
+        e_field::<V<P>>(out, &bases, &scalars, 7);
+        let mut mixed = bases.clone();
+        for (i, b) in mixed.iter_mut().enumerate() { if i % 2 == 1 { *b = (b.into_group() + P::GENERATOR).into_affine(); } }
+        e_field::<V<P>>(out, &mixed, &scalars, 7);
+        e_big::<V<P>>(out, &mixed, &big_pattern::<P::ScalarField>(rng, if r < 64 { 1 } else { 0 }, len), 7);
+    }
+    if hist_len > 0 {
+        let g = P::GENERATOR;
+        let q = V::<P>::a_dbl(&g);
+        let one = fu::<P::ScalarField>(1);
+        histories::<V<P>>(out, &[g, g, q], &[one, -one, fu(5)], hist_len, 2);
+        histories::<V<P>>(out, &[V::<P>::a_id(), g, -g], &[fu(3), P::ScalarField::zero(), fu(2)], hist_len - 1, 0);
+    }
+    random_histories::<V<P>>(out, rng, &pool, n_hist * if a.thorough { 10 } else { 1 }, 40);
+}
+/// a shipped twisted-Edwards curve
+fn real_te<P: te::TECurveConfig>(out: &mut Out, rng: &mut Rng, a: &arkharness::Args, name: &str, thorough: bool) where P::BaseField: PrimeField {
+    type V<P> = te::Projective<P>;
+    if let Some(o) = &a.only { if o != name && o != "te" { return; } }
+    let pool = V::<P>::real_pool(rng, 24);
+    if thorough { shapes::<V<P>>(out, rng, &pool, LENS_Q, 1, 1); } else { shapes::<V<P>>(out, rng, &pool, &[1, 2, 32], 1, 2); }
+    length_pairs::<V<P>>(out, rng, &pool, 2);
+    random_histories::<V<P>>(out, rng, &pool, if thorough { 60 } else { 4 }, if thorough { 10 } else { 5 });
+}
+
+// ---------------------------------------------------------------- PairingOutput<Bls12_381>
+use ark_test_curves::bls12_381::Bls12_381;
+type Gt = PairingOutput<Bls12_381>;
+type GtFr = <Bls12_381 as Pairing>::ScalarField;
+/// the table holds gt^e for |e| <= GT_D
+const GT_D: i64 = 4096;
+struct GtTable { pos: Vec<Gt>, neg: Vec<Gt>, map: std::collections::HashMap<Vec<u8>, i64> }
+static GT_TABLE: std::sync::OnceLock<GtTable> = std::sync::OnceLock::new();
+fn gt_ser(g: &Gt) -> Vec<u8> { let mut v = Vec::new(); g.serialize_compressed(&mut v).unwrap(); v }
+/// built by repeated group addition / subtraction of `gt = e(g1, g2)` only (no scalar multiplication, no MSM)
+fn gt_table() -> &'static GtTable {
+    GT_TABLE.get_or_init(|| {
+        use ark_test_curves::bls12_381::{G1Affine, G2Affine};
+        let gt = Bls12_381::pairing(G1Affine::generator(), G2Affine::generator());
+        assert!(!gt.is_zero());
+        let (mut pos, mut neg) = (vec![Gt::zero()], vec![Gt::zero()]);
+        let mut map = std::collections::HashMap::new();
+        map.insert(gt_ser(&pos[0]), 0i64);
+        for i in 1..=GT_D {
+            let p = pos[i as usize - 1] + gt;
+            let n = neg[i as usize - 1] - gt;
+            assert!((p + n).is_zero(), "gt table: negative side");
+            assert!(map.insert(gt_ser(&p), i).is_none() && map.insert(gt_ser(&n), -i).is_none(), "gt table: collision");
+            pos.push(p); neg.push(n);
+        }
+        GtTable { pos, neg, map }
+    })
+}
+/// a pairing output with its discrete logarithm w.r.t. `gt`
+#[derive(Clone, Copy, PartialEq, Eq)]
+struct GtB { e: i64, g: Gt }
+fn gtb(e: i64) -> GtB { let t = gt_table(); GtB { e, g: if e >= 0 { t.pos[e as usize] } else { t.neg[(-e) as usize] } } }
+fn gt_exp(e: i64) -> String { fe(&if e < 0 { -GtFr::from((-e) as u64) } else { GtFr::from(e as u64) }) }
+impl HG for Gt {
+    type A = GtB;
+    const PFX: &'static str = "gt.";
+    fn nc() -> &'static str { if <Gt as ScalarMul>::NEGATION_IS_CHEAP { "1" } else { "0" } }
+    fn params() -> Vec<String> { vec![] }
+    fn base(a: &GtB) -> Gt { a.g }
+    fn pt(a: &GtB) -> String { gt_exp(a.e) }
+    fn res(&self) -> String { match gt_table().map.get(&gt_ser(self)) { Some(&e) => gt_exp(e), None => "notfound".into() } }
+}
+/// bases gt^a, |a| <= maxa: identity (a = 0), repeats and opposites of earlier bases included
+fn gt_bases(rng: &mut Rng, len: usize, maxa: i64) -> Vec<GtB> {
+    let mut v: Vec<GtB> = Vec::with_capacity(len);
+    for i in 0..len {
+        let e = match rng.below(8) {
+            0 => 0,
+            1 if i > 0 => v[rng.below(i as u64) as usize].e,
+            2 if i > 0 => -v[rng.below(i as u64) as usize].e,
+            3 => 1,
+            _ => rng.below(2 * maxa as u64 + 1) as i64 - maxa,
+        };
+        v.push(gtb(e));
+    }
+    v
+}
+/// scalars ±k, k <= maxk (−k is the full-size field element r − k); kinds: 0 zeros, 1 ones, 2 r−1, 3 mixture, 4 exactly
+/// one non-zero
+fn gt_scalars(rng: &mut Rng, kind: u32, len: usize, maxk: u64) -> Vec<GtFr> {
+    let sk = |rng: &mut Rng| { let k = GtFr::from(rng.below(maxk + 1)); if rng.below(3) == 0 { -k } else { k } };
+    match kind {
+        0 => vec![GtFr::zero(); len],
+        1 => vec![GtFr::from(1u64); len],
+        2 => vec![-GtFr::from(1u64); len],
+        4 => { let mut v = vec![GtFr::zero(); len]; if len > 0 { v[rng.below(len as u64) as usize] = -GtFr::from(1 + rng.below(maxk)); } v }
+        _ => (0..len).map(|_| sk(rng)).collect(),
+    }
+}
+fn gt_suite(out: &mut Out, rng: &mut Rng, a: &arkharness::Args) {
+    if let Some(o) = &a.only { if o != "gt" { return; } }
+    let maxa = 8i64;
+    let maxk = |n: usize| (GT_D as u64 / (maxa as u64 * n.max(1) as u64)).min(15);
+    // every length pair
+    let mut pairs: Vec<(usize, usize)> = Vec::new();
+    for nb in 0..=6 { for ns in 0..=6 { pairs.push((nb, ns)); } }
+    for &nb in &[31usize, 32, 33] { for &ns in &[31usize, 32, 33] { pairs.push((nb, ns)); } }
+    for (nb, ns) in pairs {
+        let n = nb.min(ns);
+        let kinds: &[u32] = if n <= 6 && (a.thorough || nb.abs_diff(ns) <= 1 || n <= 1) { &[3, 0, 1, 2, 4] } else { &[3] };
+        for &sk in kinds {
+            let bases = gt_bases(rng, nb, maxa);
+            let scalars = gt_scalars(rng, sk, ns, maxk(n));
+            e_field::<Gt>(out, &bases, &scalars, if sk == 3 && n <= 6 { 7 } else { 3 });
+            if sk == 3 && (n <= 3 || nb == ns) {
+                let bigs: Vec<Big<Gt>> = scalars.iter().map(|s| s.into_bigint()).collect();
+                e_big::<Gt>(out, &bases, &bigs, if n <= 3 { 7 } else { 1 });
+            }
+        }
+    }
+    // full-size scalars that cancel: (k, gt^a) with (k, gt^-a) or with (r − k, gt^a), a few small terms on top
+    for &n in if a.thorough { &[2usize, 3, 4, 6, 8, 16, 31, 32, 33, 34, 64, 100][..] } else { &[2usize, 3, 6, 32, 33][..] } {
+        for variant in 0..2 {
+            let mut bs: Vec<GtB> = Vec::new(); let mut ks: Vec<GtFr> = Vec::new();
+            while bs.len() + 2 <= n - n % 2 - if n >= 6 { 2 } else { 0 } {
+                let k = match rng.below(4) { 0 => -GtFr::from(1 + rng.below(3)), _ => rand_fr::<GtFr>(rng) };
+                let e = 1 + rng.below(maxa as u64) as i64;
+                if variant == 0 { bs.push(gtb(e)); ks.push(k); bs.push(gtb(-e)); ks.push(k); }
+                else { bs.push(gtb(e)); ks.push(k); bs.push(gtb(e)); ks.push(-k); }
+            }
+            let rest = n - bs.len();
+            bs.extend(gt_bases(rng, rest, maxa)); ks.extend(gt_scalars(rng, 3, rest, 15));
+            // a fixed permutation of the pairs
+            let mut idx: Vec<usize> = (0..n).collect();
+            for i in (1..n).rev() { idx.swap(i, rng.below(i as u64 + 1) as usize); }
+            let bs: Vec<GtB> = idx.iter().map(|&i| bs[i]).collect();
+            let ks: Vec<GtFr> = idx.iter().map(|&i| ks[i]).collect();
+            e_field::<Gt>(out, &bs, &ks, if n <= 6 { 7 } else { 1 << (variant + 1 - (n % 2)) % 3 });
+            let bigs: Vec<Big<Gt>> = ks.iter().map(|s| s.into_bigint()).collect();
+            e_big::<Gt>(out, &bs, &bigs, if n <= 6 { 7 } else { 1 });
+        }
+    }
+    // big integers k + r (inside 2^MODULUS_BIT_SIZE, outside the field)
+    for &n in &[1usize, 2, 5, 32] {
+        let bases = gt_bases(rng, n, maxa);
+        let bigs: Vec<Big<Gt>> = (0..n).map(|_| { let mut b = Big::<Gt>::from(rng.below(maxk(n) + 1)); b.add_with_carry(&GtFr::MODULUS); b }).collect();
+        e_big::<Gt>(out, &bases, &bigs, if n <= 5 { 7 } else { 1 });
+    }
+    // accumulators
+    for _ in 0..if a.thorough { 200 } else { 24 } {
+        let k = 1 + rng.below(5) as usize;
+        let bases = gt_bases(rng, k, maxa);
+        let scalars = gt_scalars(rng, 3, k, 15);
+        let len = rng.below(13) as usize;
+        let ops: Vec<usize> = (0..len).map(|_| rng.below(k as u64) as usize).collect();
+        let buf = rng.below(len as u64 + 2) as usize;
+        e_acc::<Gt>(out, buf, &bases, &scalars, &ops, 7);
+    }
 }
 
 fn digits_suite(out: &mut Out, rng: &mut Rng, thorough: bool) {
@@ -535,6 +897,38 @@ fn digits_suite(out: &mut Out, rng: &mut Rng, thorough: bool) {
     e_digits::<1>(out, [u64::MAX], 3, 66);
 }
 
+/// every length pair on toy short-Weierstrass groups (cheap and non-cheap negation), the toy twisted-Edwards groups,
+/// pairing outputs
+fn extras_cheap(o: &mut Out, r: &mut Rng, a: &arkharness::Args) {
+    let only = |n: &str| a.only.as_deref().map_or(true, |s| s == n || s == "pairs");
+    if only("T13R7") { length_pairs::<Projective<T13R7>>(o, r, &sw_all_points::<T13R7>(), 0); }
+    if only("T13R13X2") { length_pairs::<Projective<T13R13X2>>(o, r, &sw_all_points::<T13R13X2>(), 1); }
+    if only("T13R7H2") { length_pairs::<Projective<T13R7H2>>(o, r, &sw_all_points::<T13R7H2>(), 1); }
+    if only("T251R257") { length_pairs::<Projective<T251R257>>(o, r, &sw_all_points::<T251R257>(), 0); }
+    if only("T257R251X4") { length_pairs::<Projective<T257R251X4>>(o, r, &sw_all_points::<T257R251X4>(), 1); }
+    if only("T13R7-slow") { length_pairs::<SlowG<T13R7>>(o, r, &sw_all_points::<T13R7>(), 0); }
+    if only("T13R13X2-slow") { length_pairs::<SlowG<T13R13X2>>(o, r, &sw_all_points::<T13R13X2>(), 1); }
+    if only("T251R257-slow") { length_pairs::<SlowG<T251R257>>(o, r, &sw_all_points::<T251R257>(), 0); }
+    // twisted-Edwards groups (`TECurveConfig::msm` is the checked entry point)
+    toy_te::<TE13R5>(o, r, a, "TE13R5", 20, 2, 200, &[0, 1, 2, 3, 8, 31, 32, 33], 2, 100, 0);
+    toy_te::<TE257R59>(o, r, a, "TE257R59", 236, 1, 80, &[1, 2, 4, 32, 33], 2, 60, 0);
+    toy_te::<TE251R13>(o, r, a, "TE251R13", 260, 1, 50, &[2, 31, 32], 0, 30, 1);
+    toy_te::<TE251R13X2>(o, r, a, "TE251R13X2", 260, 0, 0, &[1, 33], 0, 30, 1);
+    toy_te::<TE65537R16493>(o, r, a, "TE65537R16493", 65972, 0, 0, &[1, 2, 3, 8, 31, 32, 33, 100], 2, 80, 0);
+    // pairing outputs
+    gt_suite(o, r, a);
+    // (thorough stream: the quick-sized run on the shipped twisted-Edwards curve here, the large one at the end)
+    if a.thorough { real_te::<ark_test_curves::ed_on_bls12_381::EdwardsConfig>(o, r, a, "ed_on_bls12_381", false); }
+}
+/// every length pair on shipped short-Weierstrass curves; the shipped twisted-Edwards curve
+fn extras_shipped(o: &mut Out, r: &mut Rng, a: &arkharness::Args) {
+    use ark_test_curves::bls12_381;
+    let only = |n: &str| a.only.as_deref().map_or(true, |s| s == n || s == "pairs");
+    if only("bls12_381_g1") { let pool = Projective::<bls12_381::g1::Config>::real_pool(r, 24); length_pairs::<Projective<bls12_381::g1::Config>>(o, r, &pool, 2); }
+    if only("bls12_381_g1-slow") { let pool = SlowG::<bls12_381::g1::Config>::real_pool(r, 24); length_pairs::<SlowG<bls12_381::g1::Config>>(o, r, &pool, 2); }
+    real_te::<ark_test_curves::ed_on_bls12_381::EdwardsConfig>(o, r, a, "ed_on_bls12_381", a.thorough);
+}
+
 fn main() {
     let a = arkharness::args();
     if std::env::var("C05_DEBUG").is_ok() { std::panic::set_hook(Box::new(|i| eprintln!("{}", i))); }
@@ -543,6 +937,9 @@ fn main() {
     let (o, r) = (&mut out, &mut rng);
     let th = a.thorough;
     if a.only.as_deref().map_or(true, |s| s == "digits") { digits_suite(o, r, th); }
+    // the thorough stream may be cut off by a time budget: the cheap part of the later additions goes first there
+    let mut rng2 = Rng::new(a.seed ^ 0x5445_6774);
+    if th { extras_cheap(o, &mut rng2, &a); }
     // toy curves: exhaustive small vectors, the whole shape suite, every add history
     toy::<Projective<T13R7>>(o, r, &a, "T13R7", 7, if th { 3 } else { 2 }, if th { 120000 } else { 2401 }, if th { 8 } else { 6 });
     toy::<Projective<T13R13>>(o, r, &a, "T13R13", 13, 2, if th { 40000 } else { 1500 }, if th { 8 } else { 6 });
@@ -557,13 +954,13 @@ fn main() {
     toy::<SlowG<T251R257>>(o, r, &a, "T251R257-slow", 257, 1, 300, if th { 6 } else { 4 });
     // more than one step of msm_chunks (step = 2^20)
     if th && a.only.as_deref().map_or(true, |s| s == "chunkscyc") {
-        let pool = all_points::<T13R7>();
+        let pool = sw_all_points::<T13R7>();
         let sp = scalar_pattern::<FDT7>(r, 5, 7);
         e_chunkscyc::<Projective<T13R7>>(o, (1 << 20) + 5, (1 << 20) + 5, &pool[1..6], &sp);
         e_chunkscyc::<Projective<T13R7>>(o, (1 << 20) + 9, (1 << 20) + 2, &pool[..5], &sp);
     }
     if a.only.as_deref().map_or(true, |s| s == "chunkscyc") {
-        let pool = all_points::<T13R7>();
+        let pool = sw_all_points::<T13R7>();
         let sp = scalar_pattern::<FDT7>(r, 5, 7);
         e_chunkscyc::<Projective<T13R7>>(o, 50, 50, &pool[1..6], &sp);
         e_chunkscyc::<Projective<T13R7>>(o, 60, 50, &pool[1..6], &sp);
@@ -574,5 +971,8 @@ fn main() {
     real::<Projective<bls12_381::g1::Config>>(o, r, &a, "bls12_381_g1");
     real::<Projective<secp256k1::Config>>(o, r, &a, "secp256k1");
     real_slow::<SlowG<bls12_381::g1::Config>>(o, r, &a, "bls12_381_g1-slow");
+    // ---- (added later; own generator stream so that the lines above stay as they were)
+    if !th { extras_cheap(o, &mut rng2, &a); }
+    extras_shipped(o, &mut rng2, &a);
     out.flush();
 }
